@@ -162,6 +162,8 @@ pub struct StreamShared {
     pub thread_registered: AtomicBool,
     script: Mutex<Option<Arc<ResultScript>>>,
     pub flush_fail: AtomicBool,
+    /// number of scripted I/O errors returned so far (selects the error kind)
+    pub io_errors: AtomicU64,
     /// random delay inside next (per-mille probability), 0 = none
     pub delay_per_mille: AtomicU64,
     rng: Mutex<Rng>,
@@ -184,6 +186,7 @@ impl StreamShared {
             thread_registered: AtomicBool::new(false),
             script: Mutex::new(None),
             flush_fail: AtomicBool::new(false),
+            io_errors: AtomicU64::new(0),
             delay_per_mille: AtomicU64::new(0),
             rng: Mutex::new(Rng::new(seed)),
         })
@@ -335,7 +338,15 @@ impl EntryIoStream for ScriptedStream {
             Outcome::Validation => Err(IoStreamError::Validation(ValidationError::invalid(
                 "scripted validation error",
             ))),
-            Outcome::Io => Err(IoStreamError::Io(io::Error::other("scripted io error"))),
+            // every kind of I/O error, transient-looking ones included: a sink treats them all alike
+            Outcome::Io => {
+                const KINDS: [io::ErrorKind; 8] = [
+                    io::ErrorKind::Other, io::ErrorKind::Interrupted, io::ErrorKind::WouldBlock, io::ErrorKind::BrokenPipe,
+                    io::ErrorKind::TimedOut, io::ErrorKind::WriteZero, io::ErrorKind::UnexpectedEof, io::ErrorKind::StorageFull,
+                ];
+                let k = sh.io_errors.fetch_add(1, Ordering::Relaxed) as usize;
+                Err(IoStreamError::Io(io::Error::new(KINDS[k % KINDS.len()], "scripted io error")))
+            }
         }
     }
 
